@@ -555,6 +555,10 @@ func writeEvidence(id string, c propCfg, tier string, seed int64, results []shar
 		ev["assumptions"] = []string{}
 	}
 	b, _ := json.MarshalIndent(ev, "", " ")
-	_ = os.MkdirAll(filepath.Join(root, "evidence"), 0o755)
-	_ = os.WriteFile(filepath.Join(root, "evidence", id+".json"), append(b, '\n'), 0o644)
+	evDir := filepath.Join(root, "evidence")
+	if d := os.Getenv("VERIF_EVIDENCE_DIR"); d != "" { // development runs against deliberately broken trees write elsewhere
+		evDir = d
+	}
+	_ = os.MkdirAll(evDir, 0o755)
+	_ = os.WriteFile(filepath.Join(evDir, id+".json"), append(b, '\n'), 0o644)
 }
